@@ -172,6 +172,35 @@ class GencodeTables(Case):
         return [dict(r[0]), dict(r[1]), {k: list(v) for k, v in r[2].items()}]
 
 
+class StartCodonTables(Case):
+    """The initiator-codon sets of the three translation tables, as documented on TranslationTable (DEFAULT: ATG only;
+    table 1: ATG, TTG, CTG; table 11: ATG, TTG, CTG, ATT, ATC, ATA, GTG), through the question every consumer asks -
+    Codon.is_start_codon_in_specific_translation_table - for all 64 codons x 3 tables; the canonical start is ATG."""
+    name = "Codon start-codon tables[64 codons x 3 translation tables]"
+    props = ("C15", "C17", "C05")
+    func = "gene.codon.Codon.is_start_codon_in_specific_translation_table"
+    module = "gene.codon"
+    call = ("[[Codon(c).is_start_codon_in_specific_translation_table(TranslationTable[t]) for c in codons] for t in tables] + "
+            "[[Codon(c).is_canonical_start_codon for c in codons]]")
+    STARTS = {"DEFAULT": {"ATG"}, "STANDARD": {"ATG", "TTG", "CTG"},
+              "PROKARYOTE": {"ATG", "TTG", "CTG", "ATT", "ATC", "ATA", "GTG"}}
+    ensures = {
+        "documented-initiator-sets": lambda i, r: all(
+            [c for c, flag in zip(i.codons, r[k]) if flag] == sorted(StartCodonTables.STARTS[t], key=i.codons.index)
+            for k, t in enumerate(i.tables)),
+        "canonical-start-is-ATG": lambda i, r: [c for c, flag in zip(i.codons, r[3]) if flag] == ["ATG"],
+    }
+
+    def inputs(self, S):
+        return NS(codons=list(CODONS64), tables=["DEFAULT", "STANDARD", "PROKARYOTE"])
+
+    def ground(self):
+        yield {}
+
+    def observe(self, r):
+        return [list(map(bool, x)) for x in r]
+
+
 class ComplementTables(Case):
     name = "ALPHABET_TO_NUCLEOTIDE_COMPLEMENT[every alphabet x letter x case]"
     props = ("C15", "C03")
@@ -384,7 +413,7 @@ class CodonFrames(Case):
                            "location.strand.Strand"], kinds=("frame", "kind", "escape"), accepted={})
 
 
-CASES = [CodonFrames(), CodonTriplets(), CodonConstructor(), CodonHeldReference(), CodonRegistryStable(), GencodeTables(), ComplementTables(), FrameShift(), FramePhase(),
+CASES = [CodonFrames(), CodonTriplets(), CodonConstructor(), CodonHeldReference(), CodonRegistryStable(), GencodeTables(), StartCodonTables(), ComplementTables(), FrameShift(), FramePhase(),
          FrameFromInt(), StrandAlgebra(), StrandFromSymbol(), StrandFromInt(), BiotypeSynonyms()]
 
 CANARIES = [
